@@ -442,6 +442,9 @@ FIXED = [
     'const int c 1 out = x', 'const int c = x out = c', 'const int c = -1 out = c', 'const int c = (1) out = c', 'const int c = 1 s out = c', 'const int c = 1; out = c',
     'const Msg c = 1 out = c', 'const foo c = 2 out = c > 1', '', ';', 'out = x', 'x', 'x;;', 'out = x; y = ', 'float x', 'float x;', 'const int c = 1', 'const int c = 1;',
     'from vmod import Msg', 'specification s', 'specification s ;', 'float s out = s', 'float ms out = x', 'float G out = x', 'float out out = out > 1', 'int out = 3 + x',
+    # who stays an input is decided when every assertion is known (D80): read before / after / in another assertion than the write
+    'int y\na = y > 1\ny.real = x\nout = y.imag > 0', 'int y\ny.real = x\nout = y > 0', 'int y\nout = y > 0\ny.real = x', 'int y\ny.real = x\nout = x > 0',
+    'a = y > 1\ny = x\nout = a', 'y = x\na = y > 1\ny = a', 'int y\nfloat a = rise ( ( y - 0.25 ) <= - a/b )\ny.numerator.imag = - exp ( 12 ) ;\nout = exp ( y ) == ( y.real ) ;',
 ]
 
 
